@@ -338,7 +338,24 @@ def r1(ctx):
     sizes = {k.name: v for k, v in sizes.items()} if isinstance(sizes, dict) else {}
     lci, lnode, lrows = _spec_rows(ctx, "LLSDDataPacker")
     tci, tnode, trows = _spec_rows(ctx, "TemplateDataPacker")
-    ctx.floor("C12.R1", "LLSDDataPacker.SPECS rows", len(lrows), 8)
+    ctx.floor("C12.R1", "LLSDDataPacker.SPECS rows", len(lrows), 4)
+    # coverage: every template type LLSD cannot carry natively needs an LLSD row - coordinate classes (arrays in LLSD
+    # have to be rebuilt as the class) and integers outside the S32 range LLSD integers have
+    n_need = 0
+    for m, tv in trows.items():
+        need = None
+        if isinstance(tv, ast.Call) and ap(tv.func) == "_make_tuplecoord_spec":
+            need = "a coordinate class: the LLSD array has to be turned back into it"
+        elif isinstance(tv, ast.Call) and ap(tv.func) == "_make_struct_spec":
+            k = _struct_kind(_row_fmt(ev, tv) or "")
+            if k is not None and k[0] == "int" and (k[1] > 4 or (k[1] == 4 and not k[2])):
+                need = "an integer type wider than LLSD's S32 integers"
+        if need:
+            n_need += 1
+            ctx.ob("C12.R1", f"LLSD SPECS has a row for {m}", m in lrows, ctx.w(pmod, lnode),
+                   f"the binary table packs {m} as {norm(tv)} ({need}); without an LLSD row such variables come back from the "
+                   f"LLSD form as plain lists / overflow LLSD integers")
+    ctx.floor("C12.R1", "template types that need an LLSD row", n_need, 6)
     decos = {ap(d) for d in lci.node.decorator_list}
     ctx.ob("C12.R1", "LLSDDataPacker derives its own PACKERS/UNPACKERS (@_unpack_specs)", "_unpack_specs" in decos,
            ctx.w(pmod, lci.node), "without the decorator pack()/unpack() would dispatch on the inherited binary tables")
@@ -1436,11 +1453,51 @@ def r5(ctx):
     ctx.stats["C12.R5.header removal sites"] = n_sites
 
 
+def r6(ctx):
+    """The third-party XML formatter dispatches on the exact type and has no fallback: every coordinate class of
+    datatypes.py must be registered in HippoLLSDBaseFormatter's type_map with the coordinate handler."""
+    repo = ctx.repo
+    ctx.rule("C12.R6", "every TupleCoord subclass is registered in the Hippo formatters' type_map with the coordinate handler")
+    fci = repo.cls("HippoLLSDBaseFormatter", LLSD)
+    init = fci.methods.get("__init__")
+    ctx.require(init is not None, "HippoLLSDBaseFormatter.__init__ vanished")
+    lmod = repo.module(LLSD)
+    registered: Dict[str, str] = {}
+    from ..core import ancestors
+    for st in stores(init.node, into_defs=False):
+        if not (st.kind == "setitem" and st.path == "self.type_map" and isinstance(st.target, ast.Subscript)):
+            continue
+        rows: List[Dict[str, ast.AST]] = [{}]
+        for loop in [a for a in ancestors(st.node) if isinstance(a, ast.For)]:
+            it = loop.iter
+            if isinstance(it, (ast.Name, ast.Attribute)):
+                nm = ap(it) or ""
+                v = repo.class_attr(fci, nm.split(".")[-1]) if nm.startswith(("self.", "cls.")) else repo.module_assign(lmod, nm)
+                it = v if v is not None else it
+            if not isinstance(it, (ast.Tuple, ast.List)) or not isinstance(loop.target, ast.Name):
+                raise AnalysisError(f"C12.R6: type_map registration loop over {norm(loop.iter)} is not a literal sequence of classes")
+            rows = [{**r, loop.target.id: e} for r in rows for e in it.elts]
+        for env in rows:
+            k = st.target.slice
+            k = env.get(k.id, k) if isinstance(k, ast.Name) else k
+            registered[ap(k) or norm(k)] = ap(st.value) or norm(st.value)
+    tc = repo.cls("TupleCoord", "hippolyzer/lib/base/datatypes.py")
+    subs = [c for c in repo.subclasses(tc, strict=True) if c.module is tc.module]
+    ctx.floor("C12.R6", "coordinate classes", len(subs), 4)
+    handlers = {registered[k] for k in registered if repo.resolve_class(k, lmod) in subs}
+    for c in subs:
+        keys = [k for k in registered if repo.resolve_class(k, lmod) == c]
+        ok = bool(keys) and len(handlers) == 1
+        ctx.ob("C12.R6", f"{c.name} is registered in HippoLLSDBaseFormatter.type_map", ok, ctx.w(init, init.node),
+               f"registered classes: {sorted(registered)}; the XML formatter raises 'Cannot serialize unknown type' for an "
+               f"unregistered coordinate class")
+
+
 def run(ctx):
     # when re-run as a dependency clause of another property only the requested rules are evaluated (an analysis
     # error of a rule the dependent property does not need must not become its analysis error)
     wanted = getattr(ctx, "_rules", None) if getattr(ctx, "_dep", None) == "C12" else None
-    for name, fn in (("R1", r1), ("R2", r2), ("R3", r3), ("R4", r4), ("R5", r5)):
+    for name, fn in (("R1", r1), ("R2", r2), ("R3", r3), ("R4", r4), ("R5", r5), ("R6", r6)):
         if wanted is None or name in wanted:
             fn(ctx)
     ctx.assume("third-party llsd package sources under /venv/lib/python3.12/site-packages/llsd are parsed, never imported; "
